@@ -1694,7 +1694,7 @@ namespace adept {
       do {
 	// Innermost loop - note that the counter is index, not max_index
 	for (Index max_index = index + dimension_<rank-1>::value*offset_<rank-1>::value;
-	     index < max_index;
+	     index != max_index;
 	     index += offset_<rank-1>::value) {
 	  vec.push_back(gradient_ind + index);
 	}
@@ -1979,7 +1979,7 @@ namespace adept {
       do {
 	// Innermost loop - note that the counter is index, not max_index
 	for (Index max_index = index + dimension_<LocalRank-1>::value*offset_<LocalRank-1>::value;
-	     index < max_index;
+	     index != max_index;
 	     index += offset_<LocalRank-1>::value) {
 	  data_[index] = x;
 	}
@@ -2010,7 +2010,7 @@ namespace adept {
 	ADEPT_ACTIVE_STACK->push_lhs_range(gradient_ind+index, dimension_<LocalRank-1>::value,
 					   offset_<LocalRank-1>::value);
 	for (Index max_index = index + dimension_<LocalRank-1>::value*offset_<LocalRank-1>::value;
-	     index < max_index; index += offset_<LocalRank-1>::value) {
+	     index != max_index; index += offset_<LocalRank-1>::value) {
 	  data_[index] = x;
 	}
 
